@@ -1087,6 +1087,50 @@ def _unregistered_path(g, srcs, reg_nodes, reg_edges, targets):
     return None
 
 
+def _measured_operand(f, e, nid, depth: int = 3):
+    """(expression, CFG node where it is evaluated) for an operand of a test at node `nid`: a local with exactly one
+    reaching definition that is a plain assignment / walrus (`count = len(..)` ... `if count == n:`) stands for the
+    assigned expression, evaluated at the definition's node (the measuring point); anything else is itself, at `nid`."""
+    while depth > 0 and isinstance(e, ast.Name) and scoped_binding(e) is None:
+        d = name_def(f, e, nid)
+        if d is None or d.kind not in ("assign", "walrus") or d.index is not None or d.value is None or d.nid is None:
+            break
+        e, nid, depth = d.value, d.nid, depth - 1
+    return e, nid
+
+
+_LIST_MUTATORS = {"append", "extend", "insert", "pop", "remove", "clear", "update", "popitem"}
+
+
+def _mutation_between(f, g, a: int, b: int, attr: str):
+    """A CFG node on a path from `a` to `b` (both excluded) that may change `self.<attr>` or one of its values: a store /
+    delete / augmented assignment through it, or a mutator method called on it (directly or through a local)."""
+    if a == b:
+        return None
+    fwd = g.reach([a], avoid=[b])
+    for n in fwd:
+        if n in (a, b) or b not in g.reach([n], avoid=[a]):
+            continue
+        node = g.nodes[n]
+
+        def touches(x):
+            for y in ast.walk(x):
+                if isinstance(y, ast.Attribute) and y.attr == attr:
+                    return True
+                if isinstance(y, ast.Name) and isinstance(y.ctx, ast.Load) and scoped_binding(y) is None:
+                    o = single_origin(f, y, n)
+                    if o is not None and o is not y and any(isinstance(z, ast.Attribute) and z.attr == attr for z in ast.walk(o)):
+                        return True
+            return False
+
+        for x in node.walk():
+            if isinstance(x, ast.Call) and isinstance(x.func, ast.Attribute) and x.func.attr in _LIST_MUTATORS and touches(x.func.value):
+                return node
+            if isinstance(x, (ast.Subscript, ast.Attribute)) and isinstance(x.ctx, (ast.Store, ast.Del)) and touches(x):
+                return node
+    return None
+
+
 def r4(ctx):
     p = ctx.prog
     require_members(ctx, GATHER, ["run", "_gather", "get_size_port", "get_input_port", "_get_input_port_name"], ["token_map", "size_map", "depth"])
@@ -1121,27 +1165,32 @@ def r4(ctx):
                 continue
             for cmp_, edge in test_compares(f, t):
                 sides = [cmp_.left, cmp_.comparators[0]]
-                lens = [s for s in sides if builtin_call(f, s, "len") is not None]
+                # an operand kept in a temporary (`count = len(..)` ... `if count == n:`) is read through its definition
+                meas = [_measured_operand(f, s, t.id) for s in sides]
+                lens = [i for i in (0, 1) if builtin_call(f, meas[i][0], "len") is not None]
                 if len(lens) != 1:
                     continue
                 if g.dominates(t.id, cn) and only_via(g, t.id, fire_edge(edge), cn):
-                    cands.append((t, lens[0], sides[1] if lens[0] is sides[0] else sides[0], cmp_, edge))
+                    cands.append((t, meas[lens[0]][0], sides[1 - lens[0]], cmp_, edge, meas[lens[0]][1]))
         label = tag_canon(f, A, cn)
         if not cands:
             ctx.ob("R4", f"run: _gather({unparse(A)}) is guarded by a count test", False, func=f, node=c,
                    instance=f"run:fire:{label}", message="_gather is called in the loop without testing len(token_map[key]) against the size")
             continue
         # innermost: the candidate dominated by all the others
-        t, ln, S, cmp_, edge = max(cands, key=lambda x: sum(1 for y in cands if g.dominates(y[0].id, x[0].id)))
+        t, ln, S, cmp_, edge, mn = max(cands, key=lambda x: sum(1 for y in cands if g.dominates(y[0].id, x[0].id)))
         tests_all.append(t)
         larg = ln.args[0] if ln.args else None
         if isinstance(larg, ast.Name):  # the measured list held in a temporary (`elements = self.token_map.setdefault(..)`)
-            larg = single_origin(f, larg, t.id) or larg
+            larg = single_origin(f, larg, mn) or larg
         K = self_attr_sub(larg, "token_map") if larg is not None else None
         ok, msg = True, ""
         kind = None
+        stale = _mutation_between(f, g, mn, t.id, "token_map") if mn != t.id else None
         if K is None or not same(K, A):
             ok, msg = False, f"the count test reads `{unparse(ln)}` but the branch gathers `{unparse(A)}`"
+        elif stale is not None:
+            ok, msg = False, f"the count `{unparse(ln)}` is taken before `{stale.text(60)}` changes token_map: the test compares a stale count"
         elif edge.startswith("op:"):
             ok, msg = False, f"the count is compared with `{edge[3:]}` instead of ==: the list is gathered more than once / before it is complete"
         else:
@@ -1193,7 +1242,7 @@ def r4(ctx):
         elif kind == "stored-size":
             apps = [n.id for n in g.nodes.values() for x in n.calls() if method_call(x, "append") is not None and len(x.args) == 1
                     and is_arrived_token(x.args[0], n.id) and (k := self_attr_sub(x.func.value, "token_map")) is not None and same(k, K)]
-            ctx.ob("R4", "run: the element is appended to token_map[key] before the count test", bool(apps) and g.dominates(apps, t.id),
+            ctx.ob("R4", "run: the element is appended to token_map[key] before the count test", bool(apps) and g.dominates(apps, mn),
                    func=f, node=t.ast, instance="run:store-elem", message="the arriving element is not appended to token_map[key]: it is lost")
             canon = tag_canon(f, K, t.id)
             ko = single_origin(f, K, t.id)
@@ -1741,6 +1790,20 @@ def _dedent4(t: str) -> str:
 VARIANTS = [
     V("count test on a temporary holding the registered list (benign)", "streamflow/workflow/step.py", "streamflow.workflow.step.GatherStep.run",
       "if len(self.token_map.setdefault(token.tag, [])) == token.value:", "elements = self.token_map.setdefault(token.tag, [])\n                    if len(elements) == token.value:", None),
+    V("run: count of the size branch taken into a temporary before the test (benign)", SFILE, _R,
+      "if len(self.token_map.setdefault(token.tag, [])) == token.value:", "count = len(self.token_map.setdefault(token.tag, []))\n                    if count == token.value:", None),
+    V("run: count of the element branch taken into a temporary before the test (benign)", SFILE, _R,
+      "if len(self.token_map.setdefault(key, [])) == size_value:", "count = len(self.token_map.setdefault(key, []))\n                    if count == size_value:", None),
+    V("run: both operands of the size-branch test in temporaries, flipped (benign)", SFILE, _R,
+      "if len(self.token_map.setdefault(token.tag, [])) == token.value:",
+      "expected = token.value\n                    count = len(self.token_map.setdefault(token.tag, []))\n                    if not expected != count:", None),
+    V("run: element count taken into a temporary BEFORE the element is appended (stale count)", SFILE, _R,
+      "                    self.token_map.setdefault(key, []).append(token)\n                    port = input_port\n                    size_value = self.size_map[key].value if key in self.size_map else None\n                    if len(self.token_map.setdefault(key, [])) == size_value:",
+      "                    count = len(self.token_map.setdefault(key, []))\n                    self.token_map.setdefault(key, []).append(token)\n                    port = input_port\n                    size_value = self.size_map[key].value if key in self.size_map else None\n                    if count == size_value:", "R4"),
+    V("run: temporary count compared with >= in the size branch", SFILE, _R,
+      "if len(self.token_map.setdefault(token.tag, [])) == token.value:", "count = len(self.token_map.setdefault(token.tag, []))\n                    if count >= token.value:", "R4"),
+    V("run: temporary count measures another key's list", SFILE, _R,
+      "if len(self.token_map.setdefault(key, [])) == size_value:", "count = len(self.token_map.setdefault(token.tag, []))\n                    if count == size_value:", "R4"),
 
     # ---- R1
     V("compare_tags: int() dropped on both components (three-way string compare)", UFILE, CT,
